@@ -290,7 +290,27 @@ def centre_sites(run, db, rule='C04.centre', only=None):
                     if owner is fi:
                         bound = var_on_paths(res, var)
                     else:
-                        bound = [(p, e['env'][var]) for p in res for e in p.events if e['kind'] == 'watched' and e['node'] is node and e['env'].get(var) is not None]
+                        # in a helper the halved quantity is an argument: it is a centre index of the array only when what is halved is made
+                        # of the array's lengths (a count of actuators, a pitch ... halved in the same helper is something else)
+                        len_atoms = set()
+                        for a_ in lens:
+                            len_atoms |= set(dom.rat(dom.length(a_)).atoms())
+                        halved = [b.left for b in ast.walk(node.value) if isinstance(b, ast.BinOp) and isinstance(b.op, (ast.FloorDiv, ast.Div, ast.RShift))
+                                  and isinstance(b.right, ast.Constant) and b.right.value in (1, 2)]
+
+                        def of_a_length(env, owner=owner, halved=halved, len_atoms=len_atoms):
+                            from ..core.interp import Frame as _Frame
+                            fr_ = _Frame(owner, owner.module, dict(env))
+                            for h_ in halved:
+                                try:
+                                    r_ = dom.rat(it.ev(h_, fr_))
+                                except Exception:
+                                    r_ = None
+                                if r_ is None or (set(r_.atoms()) & len_atoms):
+                                    return True        # not followed, or built from a length: judged
+                            return not halved
+                        bound = [(p, e['env'][var]) for p in res for e in p.events if e['kind'] == 'watched' and e['node'] is node and e['env'].get(var) is not None
+                                 and of_a_length(e.get('reads') or {})]
                     for p, v in bound:
                         items = v.items if isinstance(v, Tup) else [v]
                         key = tuple(sh(dom, x) for x in items)
